@@ -95,6 +95,9 @@ func loadProgram(repo string, overlay map[string][]byte, tests bool) (*Program, 
 		}
 	}
 	sort.Slice(p.SrcFuncs, func(i, j int) bool { return p.SrcFuncs[i].String() < p.SrcFuncs[j].String() })
+	for _, f := range p.SrcFuncs {
+		unspillReturns(f)
+	}
 	for _, pk := range p.Pkgs {
 		for _, f := range pk.Syntax {
 			for _, d := range f.Decls {
@@ -108,6 +111,58 @@ func loadProgram(repo string, overlay map[string][]byte, tests bool) (*Program, 
 	}
 	p.LoadS = time.Since(t0).Seconds()
 	return p, nil
+}
+
+// unspillReturns undoes go/ssa's "defer-spilled returns": in a function with
+// defers `return a, b` is lowered to stores into result locals, rundefers, loads
+// and a return of the loads. The rules look at what is returned, so each such
+// load is replaced (in the Return's operand list only) by the value stored into
+// the result local in the same block before rundefers - unless a deferred closure
+// may overwrite named results, in which case the loads are left alone.
+func unspillReturns(f *ssa.Function) {
+	if f.Recover == nil {
+		return
+	}
+	for _, b := range f.Blocks {
+		if b == f.Recover || len(b.Instrs) == 0 {
+			continue
+		}
+		r, ok := b.Instrs[len(b.Instrs)-1].(*ssa.Return)
+		if !ok {
+			continue
+		}
+		for i, v := range r.Results {
+			ld, ok := v.(*ssa.UnOp)
+			if !ok || ld.Op != token.MUL {
+				continue
+			}
+			al, ok := ld.X.(*ssa.Alloc)
+			if !ok {
+				continue
+			}
+			// a deferred closure capturing the result local may change it
+			captured := false
+			if refs := al.Referrers(); refs != nil {
+				for _, ref := range *refs {
+					if _, isMC := ref.(*ssa.MakeClosure); isMC {
+						captured = true
+					}
+				}
+			}
+			if captured {
+				continue
+			}
+			var last ssa.Value
+			for _, ins := range b.Instrs {
+				if st, ok := ins.(*ssa.Store); ok && st.Addr == ssa.Value(al) {
+					last = st.Val
+				}
+			}
+			if last != nil {
+				r.Results[i] = last
+			}
+		}
+	}
 }
 
 func (p *Program) CHA() *callgraph.Graph {
